@@ -364,6 +364,15 @@ func bases() []scenario {
 		out = append(out, scenario{Name: fmt.Sprintf("two-txs/wait=%v", wc), WaitConf: wc, Level: 3,
 			Steps: []step{{Op: "mine", Tx: 1, Block: 101, Logs: []ethh.LogSpec{core(5, 1)}}, {Op: "mine", Tx: 2, Block: 102, Logs: []ethh.LogSpec{core(6, 3)}}, {Op: "poll"}, {Op: "head+", N: 1}, {Op: "poll"}, {Op: "head+", N: 3}, {Op: "poll"}}})
 	}
+	// several messages with different consistency levels in ONE transaction (both orders), re-observed
+	// while the head is between the two depths
+	for _, lv := range [][2]uint8{{1, 15}, {15, 1}, {0, 3}} {
+		logs := []ethh.LogSpec{core(5, lv[0]), core(6, lv[1])}
+		for _, at := range []uint64{0, 2, 5, 20} {
+			out = append(out, scenario{Name: fmt.Sprintf("two-levels-one-tx/%d-%d/reobs-at+%d", lv[0], lv[1], at), WaitConf: true, Level: 16,
+				Steps: []step{{Op: "mine", Tx: 1, Block: 101, Logs: logs}, {Op: "poll"}, {Op: "head+", N: at}, {Op: "poll"}, {Op: "reobs", Tx: 1}, {Op: "head+", N: 3}, {Op: "poll"}, {Op: "reobs", Tx: 1}}})
+		}
+	}
 	// slow answers: a node call of the watcher is suspended while the chain moves (the answer order of the
 	// node is owned by the harness); on the re-observation path and on the per-head scan
 	for _, m := range []string{"eth_getBlockByNumber", "eth_getTransactionReceipt", "eth_getBlockByHash"} {
